@@ -1,6 +1,10 @@
 #ifndef NMTOOLS_DEF_HPP
 #define NMTOOLS_DEF_HPP
 
+#ifdef NMTOOLS_VERIF
+#include "nmtools/verif_hooks.hpp"
+#endif // NMTOOLS_VERIF
+
 // this file may be used to resolve size_t
 // for example, avr gcc should include <stddef.h>
 // c++ for opencl can't include but already have size_t
@@ -70,7 +74,12 @@ namespace nmtools
 
         constexpr clipped_integer_t(T other)
             : value(other > Max ? Max : (other < Min ? Min : other))
-        {}
+        {
+            #ifdef NMTOOLS_VERIF
+            NMTOOLS_VERIF_CHECK( (other > Max), 5, other, Max );
+            NMTOOLS_VERIF_CHECK( (other < Min), 5, other, Min );
+            #endif // NMTOOLS_VERIF
+        }
 
         constexpr operator T() const noexcept
         {
